@@ -138,8 +138,46 @@ def answer (ts : List String) : Option String :=
     pure (toString (levenshtein a b) ++ " " ++ toString (levenshteinIcase a b))
   | _ => none
 
+/-! aliased arguments: `al <op> <buffer> off:len …` — every view is a slice of the one buffer; the
+models work on the denoted bytes, so aliasing cannot matter to them (that it does not matter to the code
+is what these lines check) -/
+
+def pSlice (buf : Bytes) (tok : String) : Option Bytes :=
+  match tok.splitOn ":" with
+  | [a, b] => do
+    if tok.length > 12 then none
+    let o ← a.toNat?
+    let l ← b.toNat?
+    if o > buf.length ∨ l > buf.length - o then none else pure ((buf.drop o).take l)
+  | _ => none
+
+def answerAlias (ts : List String) : Option String :=
+  match ts with
+  | [op, b, x, y] => do
+    let buf ← pBytes b; let v0 ← pSlice buf x; let v1 ← pSlice buf y
+    match op with
+    | "sw" => pure (bit (startsWith v0 v1) ++ bit (endsWith v0 v1) ++ bit (startsWithIcase v0 v1) ++ bit (endsWithIcase v0 v1))
+    | "contains" => pure (bit (C19.contains v0 v1))
+    | "icmp" => pure ("c=" ++ sgn (compareIcase v0 v1) ++ " e=" ++ bit (equalIcaseView v0 v1) ++ " l=" ++ bit (lessIcaseView v0 v1))
+    | "erase" => pure (hex (eraseAllCopy v0 v1))
+    | "trim" => pure (hex (trimViewPtr v0 v1) ++ "," ++ hex (trimView v0 v1))
+    | "triml" => pure (hex (trimLeftViewPtr v0 v1) ++ "," ++ hex (trimLeftView v0 v1))
+    | "trimr" => pure (hex (trimRightViewPtr v0 v1) ++ "," ++ hex (trimRightView v0 v1))
+    | "lev" => pure (toString (levenshtein v0 v1) ++ " " ++ toString (levenshteinIcase v0 v1))
+    | _ => none
+  | [op, b, x, y, z] => do
+    let buf ← pBytes b; let v0 ← pSlice buf x; let v1 ← pSlice buf y
+    match op with
+    | "repf" => do let v2 ← pSlice buf z; if v1.isEmpty then none else pure (hex (replaceFirst v0 v1 v2))
+    | "repa" => do let v2 ← pSlice buf z; if v1.isEmpty then none else pure (hex (replaceAll v0 v1 v2))
+    | "splits" => do let lim ← pNum z; pure (hexv (splitStr v0 v1 lim))
+    | _ => none
+  | _ => none
+
 def step (_ : Unit) (ts : List String) : Unit × String :=
   let args := ts.takeWhile (· ≠ "=")
-  ((), (answer args).getD "bad-op")
+  match args with
+  | "al" :: rest => ((), (answerAlias rest).getD "bad-op")
+  | _ => ((), (answer args).getD "bad-op")
 
 def main : IO Unit := Drv.loop () step
